@@ -1,6 +1,10 @@
 """C03 - flow-neutral price index starting at 100."""
 from .. import mon1
-from .. import mon2
+import copy
+
+import numpy as np
+
+from .. import common, instrument as ins, mon1, mon2, w2
 from . import _w1case, _w2case
 
 ID = "C03"
@@ -14,14 +18,77 @@ ASSUMPTIONS = ["'a flow never moves the index' is read as the recurrence states 
 def plan(tier):
     n = 1500 if tier == "quick" else 40000
     m = 400 if tier == "quick" else 10000
-    return [dict(unit="w1", n=n, builds=["py", "so"], case_timeout=60), dict(unit="w2", n=m, builds=["py", "so"], case_timeout=120)]
+    return [dict(unit="w1", n=n, builds=["py", "so"], case_timeout=60), dict(unit="w2", n=m, builds=["py", "so"], case_timeout=120),
+            dict(unit="scale", n=120 if tier == "quick" else 3000, builds=["py", "so"], case_timeout=240)]
 
 
 def floors(tier):
-    return {"min_decided": 300, "counters": {"recurrence_evals": 5000, "flow_row_evals": 1000, "pure_flow_obs": 100, "c03_recurrence_evals": 10000}, "max_undecided_frac": 0.4}
+    return {"min_decided": 300, "counters": {"recurrence_evals": 5000, "flow_row_evals": 1000, "pure_flow_obs": 100, "c03_recurrence_evals": 10000, "scale_pairs": 300, "scale_dates": 10000}, "max_undecided_frac": 0.4}
+
+
+def _scaled(spec, k):
+    sp = copy.deepcopy(spec)
+    sp["capital"] = spec["capital"] * k
+
+    def walk(a):
+        if "$run_always" in a:
+            walk(a["$run_always"])
+        elif a.get("a") in ("CapitalFlow", "QuietFlow"):
+            a["args"] = [a["args"][0] * k]
+
+    def node(n):
+        for a in n["algos"]:
+            walk(a)
+        for c in n.get("children") or []:
+            if c["type"] == "strat":
+                node(c)
+
+    node(sp["root"])
+    return sp
+
+
+def run_scale(cs):
+    """Oracle B: fractional positions and size-proportional costs => the index does not depend on the amount of capital"""
+    ins.install()
+    ins.reset()
+    spec = w2.gen(cs, integer=False, comms=["none", "prop"], quiet_flows=True, solvers=False)
+    sig = ["scale"] + w2.signature(spec)
+    base = w2.run(spec)
+    if base.exc is not None:
+        v, why = _w2case.classify_exc(base.exc, spec)
+        return common.result(v, sig=sig, why=why)
+    cnt = {}
+    P0 = {who: r.data["price"].to_numpy(dtype=float) for who, r in mon1.trees(base.root)}
+    ntr = sum(1 for e in base.events if e["k"] == "trade")
+    for k in (1e-2, 3.7, 40.0):
+        ins.reset()
+        alt = w2.run(_scaled(spec, k))
+        if alt.exc is not None and common.is_guard_exc(alt.exc):
+            # K1: at large amounts the sizing search's absolute 1e-8 closeness test cannot be met in float64 - decided by C05/C10
+            return common.result(common.OOD, sig=sig, cnt=cnt, why="sizing guard at scaled capital")
+        if alt.exc is not None:
+            return common.result(common.VIOL, sig=sig, nt=True, cnt=cnt, mech="c03_scale_run_raises",
+                                 witness={"case_seed": cs, "multiple": k, "exception": "%s: %s" % (type(alt.exc).__name__, str(alt.exc)[:160]), "desc": spec["desc"]})
+        common.bump(cnt, "scale_pairs")
+        a = P0["real"]
+        b = alt.root.data["price"].to_numpy(dtype=float)
+        common.bump(cnt, "scale_dates", len(a))
+        d = np.abs(a - b) / (1e-300 + np.abs(a))
+        common.mx(cnt, "_", 0)
+        if not (d <= 1e-9).all():
+            i = int(np.argmax(d))
+            if base.root.bankrupt or alt.root.bankrupt:
+                return common.result(common.OOD, sig=sig, cnt=cnt, why="bankrupt run (liquidation sizes are not scale-free)")
+            return common.result(common.VIOL, sig=sig, nt=True, cnt=cnt, mech="c03_index_depends_on_capital",
+                                 witness={"case_seed": cs, "multiple": k, "date_index": i, "index_base": float(a[i]), "index_scaled": float(b[i]), "rel_diff": float(d[i]),
+                                          "capital": spec["capital"], "desc": spec["desc"]})
+    cnt.pop("_", None)
+    return common.result(common.HELD, sig=sig, nt=ntr >= 1, cnt=cnt, sample=w2.sample_of(spec))
 
 
 def run_case(unit, cs, idx, build, params):
+    if unit == "scale":
+        return run_scale(cs)
     if unit == "w2":
         return _w2case.run_w2(cs, [mon2.c03_recurrence], gen_opts={"quiet_flows": True})
     return _w1case.run_w1(cs, [mon1.Index()])
